@@ -1758,9 +1758,23 @@ class ExecGen:
             out += [("code", ind + "    return p + str(" + lv + ") + r")]
             out += [("code", ind + v + " = " + fn + "('A')")]
             return out
+        if k < 0.965:
+            v = self.var(top)
+            return [("code", ind + "try:"), ("code", ind + "    " + v + " = [][0]"), ("code", ind + "except IndexError as e_:"),
+                    ("code", ind + "    " + v + " = 'caught'")]
+        # a lambda holding a comprehension over a variable that is ALSO a name of the template's namespace, read from the
+        # namespace afterwards (in the block itself or in an enclosing def)
         v = self.var(top)
-        return [("code", ind + "try:"), ("code", ind + "    " + v + " = [][0]"), ("code", ind + "except IndexError as e_:"),
-                ("code", ind + "    " + v + " = 'caught'")]
+        nm = r.choice(sorted(NAMESPACE))
+        comp = r.choice(["[%s for %s in z_]", "{%s: 1 for %s in z_}", "sorted({%s for %s in z_})", "list(%s for %s in z_)"]) % (nm, nm)
+        lc = "lc%d" % self.n
+        if r.random() < 0.5:
+            return [("code", ind + lc + " = lambda z_: " + comp), ("code", ind + v + " = (" + lc + "('ab'), " + nm + ")")]
+        gn = "gn%d" % self.n
+        return [("code", ind + "def " + gn + "(p, *q, r='d', **kw):"),
+                ("code", ind + "    " + lc + " = lambda z_: " + comp),
+                ("code", ind + "    return (" + lc + "(p), " + nm + ", r)"),
+                ("code", ind + v + " = " + gn + "('ab')")]
 
     def block(self):
         out = []
@@ -1906,6 +1920,8 @@ def canon_ns(ns, names):
 '''
 
 BLOCK_VARIANTS = ["top", "if", "def", "for-if", "module"]
+# names the executable blocks read from the template's namespace (render(**NAMESPACE) / globals of the native exec)
+NAMESPACE = {"row": "ROW", "item": "ITEM", "cell": "CELL"}
 
 
 def block_template(variant, phys_lines, margin, names):
@@ -1931,6 +1947,7 @@ def native_exec(src, names):
     if _ENV is None:
         _ENV = _native_env()
     g = _native_env()
+    g.update(NAMESPACE)
     tree = ast.parse(src)
     ret = ast.parse("return canon_ns(locals(), %r)" % (names,)).body[0]
     fn = ast.FunctionDef(name="block__", args=ast.arguments(posonlyargs=[], args=[], vararg=None, kwonlyargs=[],
@@ -1951,7 +1968,7 @@ def template_exec(text):
     try:
         try:
             with time_limit(10):
-                return ("ok", Template(text).render().strip("\n"))
+                return ("ok", Template(text).render(**NAMESPACE).strip("\n"))
         except Hang as e:
             e.case = text
             raise
@@ -2026,6 +2043,8 @@ def oracle_blocks(ctx, blocks):
     for i, (lines, src, names) in enumerate(blocks):
         margin = ctx.rng.choice(MARGINS)
         variant = BLOCK_VARIANTS[i % len(BLOCK_VARIANTS)]
+        if variant == "module" and "lambda z_" in src:
+            variant = "top"                  # module-level code cannot read the template's namespace
         want = native_exec(src, names)
         if want[0] != "ok":
             ctx.branch("oracle.blocks:native-raises-" + want[1])
@@ -2068,6 +2087,8 @@ def oracle_blocks(ctx, blocks):
         feature = feats[0] if feats else "unclassified"
         side = "lexer-or-printer" if v2 in ("top", "module") else "printer-indent"
         site = "remargin-" + feature
+        if not feats and template_exec(block_template(v2, with_margin(ls, m2), m2, names)) == ("exc", "NameError"):
+            site, feature = "block-namespace-read-raises-nameerror", "namespace-read"
         ctx.branch("oracle.blocks:VIOLATION:" + site + ":" + side)
         key = (site, side)
         if key in reported:
@@ -2135,7 +2156,7 @@ def name_roles(tree, name):
             own = any(isinstance(x, ast.Name) and x.id == name for g in n.generators for x in ast.walk(g.target))
             if own:
                 comp_scopes.append(scope)
-            if infunc:
+            if infunc and not own:
                 parts = ([n.key, n.value] if isinstance(n, ast.DictComp) else [n.elt]) + [c for g in n.generators for c in g.ifs]
                 for prt in parts:
                     if any(isinstance(x, ast.Name) and x.id == name and isinstance(x.ctx, ast.Load) for x in ast.walk(prt)):
@@ -2490,7 +2511,7 @@ def replay(ctx, data):
         except Exception as e:
             print("raised", type(e).__name__, e)
             return True
-    if site.startswith("remargin"):
+    if site.startswith("remargin") or site.startswith("block-"):
         text = block_template(case["variant"], inp.split("\n"), case["margin"], case["names"])
         got, want = template_exec(text), native_exec(case["native_source"], case["names"])
         print("template:", got, "\nnative  :", want)
